@@ -31,7 +31,7 @@ ISOLATED = netns.isolate()       # own loopback: no other process can hold or ta
 PID = "C11"
 RULE = ("cases: server kind (plain / TLS) x <= 14 operations (raw client connect, TLS hello leaving the handshake pending, finish "
         "handshake, send, client close, client reset, reconnect from the same source address = replacement, server service) "
-        "ended by server.close(), optionally after a first open() that fails because the port is busy; and hio client histories (plain / TLS client, reopen / connect / close in any order against a "
+        "optionally ending with a batch of 2-5 peers that connect back to back, some giving up (RST / FIN) before one single service pass, ended by server.close(), optionally after a first open() that fails because the port is busy; and hio client histories (plain / TLS client, reopen / connect / close in any order against a "
         "harness listener); non-trivial = the server is closed with a handshake pending, or after a replacement, or with >= 2 "
         "accepted connections; for clients: a reopen while connected; distinct = canonical hash")
 ASSUMPTIONS = [
@@ -155,6 +155,25 @@ def run_server_case(case, r):
             if k == "conn":
                 connect()
                 svc()
+            elif k == "secure":
+                # macro: a connection that is fully established (TLS: handshake completed) in one step
+                c = connect()
+                svc()
+                if c is not None and tls:
+                    c["tls"] = ctx.wrap_socket(c["raw"], server_hostname="localhost", do_handshake_on_connect=False)
+                    for _ in range(200):
+                        try:
+                            c["tls"].do_handshake()
+                            c["state"] = "secured"
+                            break
+                        except (ssl.SSLWantReadError, ssl.SSLWantWriteError):
+                            svc(1)
+                        except OSError:
+                            c["state"] = "broken"
+                            break
+                    else:
+                        inconclusive += 1
+                    svc()
             elif k == "svc":
                 svc(2)
             elif not live:
@@ -213,6 +232,24 @@ def run_server_case(case, r):
                         replaced = True
                         labels.append("replacement")
                     svc()
+        fb = case.get("final_batch")
+        if fb:
+            # several peers connect back to back, some give up (RST / FIN) before the server has serviced its accepts;
+            # exactly one service pass, then the server is closed
+            for kind in fb:
+                c = connect()
+                if c is None:
+                    continue
+                if kind == "rst":
+                    rst_close(c["raw"])
+                    c["state"] = "closed"
+                elif kind == "fin":
+                    c["raw"].close()
+                    c["state"] = "closed"
+            import time as _time
+            _time.sleep(0.002)          # let loopback deliver the resets before the accept pass (not a correctness signal)
+            server.serviceConnects()
+            labels.append("accept-batch-with-gone-peers")
         if tls and getattr(server, "cxes", None):
             pending_hs = True
             labels.append("handshake-pending-at-close")
@@ -357,14 +394,16 @@ def run_case(case):
 
 def _server_strategy():
     idx = st.integers(0, 5)
-    op = st.one_of(st.just(["conn"]), st.just(["conn"]), st.just(["svc"]),
+    op = st.one_of(st.just(["conn"]), st.just(["conn"]), st.just(["svc"]), st.just(["secure"]), st.just(["secure"]),
                    st.tuples(st.just("hello"), idx).map(list), st.tuples(st.just("hello"), idx).map(list),
                    st.tuples(st.just("finish"), idx).map(list),
                    st.tuples(st.just("send"), idx, st.integers(1, 2000)).map(list),
                    st.tuples(st.just("close"), idx).map(list), st.tuples(st.just("rst"), idx).map(list),
                    st.tuples(st.just("replace"), idx, st.booleans()).map(list))
     return st.fixed_dictionaries({"kind": st.just("server"), "tls": st.booleans(), "ops": st.lists(op, min_size=1, max_size=14),
-                                  "busy_first": st.sampled_from([False, False, False, True])})
+                                  "busy_first": st.sampled_from([False, False, False, True]),
+                                  "final_batch": st.one_of(st.none(), st.none(),
+                                                           st.lists(st.sampled_from(["live", "live", "rst", "fin"]), min_size=2, max_size=5))})
 
 
 def _client_strategy():
